@@ -183,7 +183,12 @@ def rule_fresh(c: Ctx) -> RuleResult:
     # (1) the dispatcher rewrites tight after every dispatch
     st = K[tok]
     cfg = c.cfg(tok)
-    disp = [cs for cs in c.cg.sites.get(tok, []) if cs.kind.startswith("dispatch:block:")]
+    def dispatches(g, depth=0) -> bool:
+        return any(cs.kind.startswith("dispatch:block:") or (depth < 2 and cs.kind in ("method", "direct") and any(
+            h.module is tok.module and h is not tok and dispatches(h, depth + 1) for h in cs.callees)) for cs in c.cg.sites.get(g, []))
+    # the dispatch itself, or the call of a private helper of the module that contains it (extract-method)
+    disp = [cs for cs in c.cg.sites.get(tok, []) if cs.kind.startswith("dispatch:block:") or (
+        cs.kind in ("method", "direct") and any(h.module is tok.module and h is not tok and dispatches(h) for h in cs.callees))]
     if not disp:
         raise AnchorError("ParserBlock.tokenize has no rule dispatch")
     for cs in disp:
@@ -252,6 +257,7 @@ def rule_fresh(c: Ctx) -> RuleResult:
     reader_chains = {alt for reg in c.reg.rules["block"] if reg.func in readers for alt in reg.alt}
     r.notes.append(f"readers of parentType: {sorted(x.short for x in readers)}; registered on terminator chains {sorted(reader_chains)}")
     ndisp = 0
+    rule_funcs = {reg.func for reg in c.reg.rules["block"]}
     for f, stn in sorted(K.items(), key=lambda kv: kv[0].qual):
         sites = [cs for cs in c.cg.sites.get(f, []) if cs.kind.startswith("dispatch:block:") and cs.kind != "dispatch:block:"]
         if not sites:
@@ -271,7 +277,26 @@ def rule_fresh(c: Ctx) -> RuleResult:
                 v = VN.get(res[n.id], f"{stn}.parentType")
                 val = v
                 if v[0] != "const":
-                    ok = False
+                    # the dispatch sits in a helper that leaves parentType alone: judged where the helper is called
+                    lifted = False
+                    if v == entry(f"{stn}.parentType") and f not in rule_funcs:
+                        callers = [x for x in c.cg.callers.get(f, []) if x.kind in ("direct", "method")]
+                        lifted = bool(callers)
+                        for x in callers:
+                            arg = c.eff.arg_for_param(x, f, stn)
+                            if arg is None or x.caller not in K:
+                                lifted = False
+                                break
+                            ccfg, cres, cvn = analyse(c, x.caller, ov)
+                            for cn in ccfg.owner(x.node):
+                                if cres.get(cn.id) is not None:
+                                    cv = VN.get(cres[cn.id], f"{U(arg)}.parentType")
+                                    if cv[0] != "const":
+                                        lifted = False
+                                    else:
+                                        val = cv
+                    if not lifted:
+                        ok = False
             r.add(f"{f.short}|parentType@dispatch", c.where(f, cs.node), f.short, U(cs.node)[:70], "discharged" if ok else "violation",
                   f"{stn}.parentType is the literal {val[1] if val else '?'} stored by this rule on every path to the terminator dispatch" if ok else
                   f"{stn}.parentType at this terminator dispatch is not a literal of this rule on every path (value {val}): the list "
